@@ -221,7 +221,7 @@ theorem okFor_more {b : BlockOpt} {n : Nat} (hm : b.more = true) (h : b.okFor n 
   · simp only [h7, ↓reduceIte, hm, Bool.and_eq_true, beq_iff_eq, Bool.true_and, Bool.not_eq_true',
       beq_eq_false_iff_ne, ne_eq] at h
     have hs : b.size = 1024 := by rw [BlockOpt.size_unit, h7, unit_seven]
-    exact ⟨by omega, by rw [hs]; exact Nat.dvd_of_mod_eq_zero h.1, fun hc => absurd h7 hc⟩
+    exact ⟨by omega, by rw [hs]; exact Nat.dvd_of_mod_eq_zero h.1.2, fun hc => absurd h7 hc⟩
   · simp only [h7, ↓reduceIte, hm, Bool.and_eq_true, beq_iff_eq, Bool.true_and, Bool.not_eq_true',
       beq_eq_false_iff_ne, ne_eq] at h
     exact ⟨by rw [h.1]; exact b.size_pos, by rw [h.1]; exact Nat.dvd_refl _, fun _ => h.1⟩
